@@ -57,3 +57,6 @@ C15_BOUNDARY_OK = {
 }
 
 C13_SIB_EXCEPTIONS = {}
+
+# DIM: legitimate mixes of columns and rows (areas, aspect ratios) - none needed on the pinned tree.
+C01_DIM_EXCEPTIONS = {}
